@@ -924,7 +924,7 @@ class PtychographyDatasetRaster(DatasetConstraints):
 
         sampling = self.obj_sampling
         if self.com_transpose:
-            positions = np.flip(positions, axis=1)
+            positions = np.flip(positions, axis=1).copy()  # contiguous copy: torch.tensor rejects negative strides
             sampling = sampling[::-1]
 
         # ensure positive
